@@ -1577,6 +1577,12 @@ func GetFilesChanged(from, to string) ([]string, error) {
 		"-r",
 	}
 
+	if len(to) == 0 {
+		// A single commit is compared with its parents: show a root
+		// commit against the empty tree, and a merge commit against
+		// each of its parents, instead of nothing at all.
+		args = append(args, "--root", "-m")
+	}
 	if len(from) > 0 {
 		args = append(args, from)
 	}
